@@ -1,11 +1,99 @@
-(* Properties_C04.v — placeholder while the lemma files are being built *)
+(* Properties_C04.v — property theorems for C04 (XML output parses back to the result tree).
+   Nothing but statements closed by [exact] and their assumptions.  The model is
+   SerUtfDefs (buffered writers) / SerEscDefs (escaping, element stack) / XmlParseDefs (model
+   reader); every table, buffer size and `m_bufferRemaining < k` guard comes from GenSer.v, which
+   translator/gen_ser.py regenerates from /repo on every run. *)
 From Coq Require Import NArith List Bool.
-Require Import XV.SerDefs XV.XmlParseDefs.
+Require Import XV.SerDefs XV.XmlParseDefs XV.SerUtfModel XV.SerUtfModel2.
 Import ListNotations.
 Local Open Scope N_scope.
 
-Example header_example :
-  serialize EncUtf8 false [49;46;48] [85;84;70;45;56] [EStart [97] []; EEnd [97]]
-  = Ok [60;63;120;109;108;32;118;101;114;115;105;111;110;61;34;49;46;48;34;32;101;110;99;111;100;105;110;103;61;34;85;84;70;45;56;34;63;62;60;97;47;62].
-Proof. vm_compute. reflexivity. Qed.
-Print Assumptions header_example.
+(* ---- the staging buffers ----------------------------------------------------------------------- *)
+
+(* writer_inv + writer_transparent: for ANY sequence of buffer operations whose guards protect
+   their stores, started at ANY buffer offset satisfying the invariant
+   (position + remaining = kBufferSize): no store falls outside m_buffer, the invariant is kept,
+   and what reaches the Writer is exactly the concatenation of the operations' data — a multi-unit
+   character can never be torn or lost at a flush. *)
+Theorem writer_transparent : forall kb its w, kb < 2 ^ 64 -> wr_inv kb w ->
+  forallb (item_sound kb) its = true ->
+  match payload its with
+  | Ok bs => exists w', run kb its w = Ok w' /\ wr_inv kb w' /\ all_units w' = all_units w ++ bs
+  | Thrown c => run kb its w = Thrown c
+  | Oob => False
+  end.
+Proof. exact run_transparent. Qed.
+Print Assumptions writer_transparent.
+
+Theorem writer_inv_initially : forall kb, wr_inv kb (wr_init kb).
+Proof. exact wr_init_inv. Qed.
+Print Assumptions writer_inv_initially.
+
+(* every operation the three writers offer has a guard that protects its stores, for the buffer
+   sizes and the guards found in the source (this is the statement that a change of
+   `m_bufferRemaining < 3` into `< 2` breaks) *)
+Theorem writer_operations_guarded :
+  fam_sound fam_utf8 /\ fam_sound fam_utf16 /\ forall rep, fam_sound (fam_other rep).
+Proof. exact (conj fam_utf8_sound (conj fam_utf16_sound fam_other_sound)). Qed.
+Print Assumptions writer_operations_guarded.
+
+(* hence for every event script, version, and writer family the serializer's output is the plain
+   concatenation of what the escaping layer emits: the buffers are invisible and never overrun *)
+Theorem serialize_transparent : forall k v11 ver enc es,
+  serialize k v11 ver enc es = payload (document_items (fam_of k) v11 ver enc es).
+Proof. exact SerUtfModel.serialize_transparent. Qed.
+Print Assumptions serialize_transparent.
+
+Theorem serialize_never_out_of_bounds : forall k v11 ver enc es, serialize k v11 ver enc es <> Oob.
+Proof. exact serialize_never_oob. Qed.
+Print Assumptions serialize_never_out_of_bounds.
+
+(* the function that is extracted and run against the library is this one *)
+Theorem extracted_function_is_serialize : forall k v11 ver enc es,
+  serialize_fast k v11 ver enc es = serialize k v11 ver enc es.
+Proof. exact serialize_fast_eq. Qed.
+Print Assumptions extracted_function_is_serialize.
+
+Example writer_transparent_hypotheses_satisfiable :
+  forallb (item_sound kbuf_utf8) (u8_str [97; 233; 8364; 55357; 56832]) = true /\
+  payload (u8_str [97; 233; 8364; 55357; 56832]) = Ok [97; 195; 169; 226; 130; 172; 240; 159; 152; 128].
+Proof. split; vm_compute; reflexivity. Qed.
+Print Assumptions writer_transparent_hypotheses_satisfiable.
+
+(* ---- UTF-8 ---------------------------------------------------------------------------------------- *)
+
+(* the byte formulas of XalanUTF8Writer::write(XalanUnicodeChar) (leaf helpers regenerated from the
+   source) are RFC 3629 *)
+Theorem utf8_encoder_is_rfc3629 : forall cp, cp <= 1114111 -> payload (u8_code cp) = Ok (utf8_spec cp).
+Proof. exact u8_code_spec. Qed.
+Print Assumptions utf8_encoder_is_rfc3629.
+
+Theorem utf8_above_unicode_throws : forall cp, 1114111 < cp -> payload (u8_code cp) = Thrown err_scalar.
+Proof. exact u8_code_too_big. Qed.
+Print Assumptions utf8_above_unicode_throws.
+
+(* utf8_roundtrip: a strict decoder (shortest form, no surrogates) reads back exactly the code
+   points of every UTF-16 string whose surrogates are paired *)
+Theorem utf8_roundtrip : forall s cps, forallb (fun c => c <? 65536) s = true ->
+  code_points s = Some cps ->
+  exists bs, payload (u8_str s) = Ok bs /\ utf8_decode (S (length bs)) bs = Some cps.
+Proof. exact utf8_roundtrip16. Qed.
+Print Assumptions utf8_roundtrip.
+
+Example utf8_roundtrip_instance :
+  code_points [97; 55357; 56832; 8364] = Some [97; 128512; 8364] /\
+  forallb (fun c => c <? 65536) [97; 55357; 56832; 8364] = true.
+Proof. split; vm_compute; reflexivity. Qed.
+Print Assumptions utf8_roundtrip_instance.
+
+(* FULL statement without the pairing hypothesis is false of the model and of the library (known
+   finding K7): a lone low surrogate is written as a 3-byte sequence that no UTF-8 decoder accepts *)
+Theorem utf8_roundtrip_lone_low_refuted :
+  payload (u8_str [56832]) = Ok [237; 184; 128] /\ utf8_decode 4 [237; 184; 128] = None /\
+  code_points [56832] = None.
+Proof. exact utf8_lone_low_refuted. Qed.
+Print Assumptions utf8_roundtrip_lone_low_refuted.
+
+Theorem utf8_lone_high_is_an_error : forall c, is_high c = true -> payload (u8_str [c]) = Thrown err_surrogate.
+Proof. exact utf8_lone_high_throws. Qed.
+Print Assumptions utf8_lone_high_is_an_error.
